@@ -58,29 +58,29 @@ package git
 // either wholesale (--not --remotes=<remote>) or through the verified skipped
 // refs, never neither.
 //@ func nonZeroShas
-//@   props C03
+//@   props C03 C16
 //@   modifies fresh
 //@   loop 1 iter len(sha) > 0 && !iszerooid(sha) ==> len(nz) == iter(len(nz)) + 1 && nz[iter(len(nz))] == sha
 //@   loop 1 iter !(len(sha) > 0 && !iszerooid(sha)) ==> len(nz) == iter(len(nz))
 //@ func IsZeroObjectID
-//@   props C03
+//@   props C03 C16
 //@   pure
 //@   ensures @def result == iszerooid(s)
 //@ func includeExcludeShas
-//@   props C03
+//@   props C03 C16
 //@   modifies fresh
 //@   loop 1 iter len(args) == iter(len(args)) + 1 && args[iter(len(args))] == i && forall_int(k, args[k], 0 <= k && k < iter(len(args)) ==> args[k] == iter(args[k]))
 //@   loop 2 iter len(args) == iter(len(args)) + 1 && forall_int(k, args[k], 0 <= k && k < iter(len(args)) ==> args[k] == iter(args[k]))
 // The scanner runs git-rev-list(1) with exactly the arguments and the standard
 // input revListArgs computed from the caller's ids and options.
 //@ func NewRevListScanner
-//@   props C03 C12
+//@   props C03 C12 C16
 //@   requires @inv opt != nil
 //@   at call git.revListArgs:1 assert arg0__ == include && arg1__ == excluded && arg2__ == opt
 //@   at call git.gitNoLFS:1 assert arg0__ == args
 //@   at call (*subprocess.Cmd).Start:1 assert cmd.Stdin == stdin
 //@ func (RevListOrder).Flag
-//@   props C03 C12
+//@   props C03 C12 C16
 //@   ensures o == TopoRevListOrder ==> result1 && result0 == "--topo-order"
 //@   ensures o == DefaultRevListOrder || o == DateRevListOrder || o == AuthorDateRevListOrder || o == TopoRevListOrder
 //@   ensures o == DefaultRevListOrder ==> !result1
@@ -89,7 +89,7 @@ package git
 // C12: a scan that asks for reversed topological order of commits only gets
 // --reverse and --topo-order on the command line and not --objects.
 //@ func revListArgs
-//@   props C03 C12
+//@   props C03 C12 C16
 //@   requires @inv opt != nil
 //@   ensures @C12 result2 == nil && opt.Order == TopoRevListOrder ==> contains(result1, "--topo-order")
 //@   ensures @C12 result2 == nil && opt.Reverse ==> contains(result1, "--reverse")
@@ -190,3 +190,11 @@ package git
 //@   requires @inv c != nil
 //@   modifies fresh
 //@   at call (*git.Configuration).gitConfigWrite:1 assert len(arg1__) == 4 && arg1__[0] == "--file" && arg1__[1] == file && arg1__[2] == "--remove-section" && arg1__[3] == key
+
+// C05: the recent refs whose objects prune retains are looked for in *all* of
+// refs/ (pull-request, review and other namespaces included), newest first, so
+// that the scan may stop at the first ref older than the window.
+//@ func RecentBranches
+//@   props C05
+//@   modifies fresh
+//@   at call git.gitNoLFS:1 assert len(arg0__) == 4 && arg0__[0] == "for-each-ref" && arg0__[1] == "--sort=-committerdate" && arg0__[3] == "refs"
